@@ -237,8 +237,10 @@ int main(int argc, char** argv) {
     std::string v = vv;
     bool main_v   = v == "plain";
     add(v, P["triangle+push"], {2}, 2, main_v ? 2 : 1, 2, 4);
-    add(v, P["hot-object"], {1, 1}, 2, main_v ? 1 : -1, 1, 3);
-    add(v, P["chain-conflict"], {2}, 2, main_v ? 1 : -1, 2, 4);
+    add(v, P["hot-object"], {1, 1}, 2, main_v ? 1 : -1, 2, 3);
+    // thorough: three deviations on the plain variant (gets what the other
+    // cases leave of the deadline in the explorer's second pass)
+    add(v, P["chain-conflict"], {2}, 2, main_v ? 1 : -1, main_v ? 3 : 2, 4);
     add(v, P["triangle+push"], {3}, 3, main_v ? 1 : -1, 1, 3);
     add(v, P["hot-object"], {2, 1}, 3, -1, 1, 3);
   }
